@@ -335,6 +335,12 @@ func (r *run) coalCancelScenario(s *gocql.Session, pool *node.ServerConn, rep *R
 	res := make([]CallerResult, K)
 	var wg sync.WaitGroup
 	var cancels []context.CancelFunc
+	if h.WriteStallMs > 0 {
+		// the Write that carries the first wave blocks after two bytes and goes on later: whatever the
+		// callers' contexts do meanwhile, the frames handed to that Write are written
+		l := pool.Link().C2S
+		l.StallWriteAt(l.Written()+2, time.Duration(h.WriteStallMs)*time.Millisecond)
+	}
 	for i := 0; i < K; i++ {
 		ctx := context.Background()
 		if i < h.CancelN {
